@@ -20,6 +20,11 @@ def cases(draw, tier):
                 s_.update({"k": "spin"} if spec["qnmode"] == 0 else {"k": "spin", "qn": [[0], [1]]})
     else:
         spec = draw(chain.chain_model_specs(2, 2 if two else (7 if big else 6), max_dim=512 if big else 128))
+    if not dav and spec.get("qnmode") == 1 and draw(st.integers(0, 3)) == 0:
+        # 2*S_z labels: quantum numbers of both signs on every spin
+        for s_ in spec["sites"]:
+            if s_["k"] == "spin":
+                s_["qn"] = draw(st.sampled_from([[[1], [-1]], [[-1], [1]]]))
     terms = draw(gen.hermitian_hamiltonian(spec, max_terms=5))
     nsweep = draw(st.integers(2, 6))
     full = draw(st.integers(0, 2)) == 0  # equality case: sufficient bond limits, last sweeps without perturbation
@@ -40,6 +45,9 @@ def cases(draw, tier):
             "algo": "davidson" if dav else draw(st.sampled_from(["direct", "davidson"])), "nroots": draw(st.sampled_from([1, 1, 1, 2, 3, 4])),
             "omega": draw(st.sampled_from([None, None, None, 0.0, 0.4, -1.3, 100.0])),
             "stacked": draw(st.integers(0, 4)) == 0, "mpo_algo": draw(st.sampled_from(["qr", "Hopcroft-Karp"])),
+            "guess_prep": draw(st.lists(st.sampled_from(["ensure_right", "ensure_left", "apply_h", "add_random", "canon_stop", "scale",
+                                                         "previous_result"]), min_size=0, max_size=3)),
+            "prep_k": draw(st.integers(0, 6)),
             "full": full}
 
 
@@ -103,8 +111,8 @@ class C08(Prop):
         Hs = (Hs + Hs.conj().T) / 2
         evals = np.linalg.eigvalsh(Hs)
         nroots = case["nroots"]
-        if nroots > 1 and dimq < 2 * nroots:
-            nroots = 1
+        if nroots > dimq:
+            nroots = max(1, dimq)
         omega = case["omega"]
         if nroots > 1:
             omega = None
@@ -140,6 +148,47 @@ class C08(Prop):
                 raise
             r.fail(f"mpo_build.{sig}", repr(e))
             return r
+        # the initial guess may be any state of the sector: give it a history (gauge moves, operator image, sums, a previous result)
+        for step in case.get("guess_prep", []):
+            try:
+                if step == "ensure_right":
+                    mps.ensure_right_canonical()
+                elif step == "ensure_left":
+                    mps.ensure_left_canonical()
+                elif step == "canon_stop":
+                    mps.ensure_left_canonical()
+                    mps.to_right = False
+                    mps.canonicalise(stop_idx=case["prep_k"] % n)
+                elif step == "scale":
+                    mps = mps.scale(-2.5)
+                elif step == "apply_h":
+                    new = h_for_expect.apply(mps)
+                    if np.linalg.norm(new.todense()) > 1e-6:
+                        new.optimize_config = mps.optimize_config
+                        mps = new
+                elif step == "add_random":
+                    np.random.seed(case["rng"] + 11)
+                    other = Mps.random(model, qarg, max(case["m0"], 2), percent=1.0)
+                    mps = other.add(mps) if case["prep_k"] % 2 else mps.add(other)
+                elif step == "previous_result":
+                    tmp = mps.copy()
+                    tmp.optimize_config.procedure = [[4, 0.2], [4, 0]]
+                    tmp.optimize_config.method = "2site"
+                    tmp.optimize_config.algo = "direct"
+                    tmp.optimize_config.nroots = 1
+                    h1 = h_for_expect
+                    if h1.is_complex and not tmp.is_complex:
+                        tmp = tmp.to_complex()
+                    _, prev = optimize_mps(tmp, h1)
+                    mps = prev
+            except (FloatingPointError, ZeroDivisionError, IndexError):
+                pass
+        if case.get("guess_prep"):
+            r.classes.append("guess_with_history")
+            d0 = mps.todense()
+            if not np.all(np.isfinite(d0)) or np.linalg.norm(d0) < 1e-8:
+                r.rejected = "guess preparation produced a vanishing state"
+                return r
         mpo_complex = any(m.is_complex for m in (mpo.mpos if isinstance(mpo, StackedMpo) else [mpo]))
         if mpo_complex:
             # precondition: a complex Hamiltonian needs a complex trial state (the optimizer writes the complex
@@ -245,9 +294,10 @@ class C08(Prop):
             r.resid("equality.energy_gap", float(np.max(np.abs(best - exact[:len(best)]))), etol)
             r.check("equality.energy", np.all(np.abs(best - exact[:len(best)]) <= etol),
                     f"full bond dimension: lowest reported {best.tolist()} vs exact {exact[:nroots].tolist()} (omega {omega})")
-            if omega is None and nroots == 1:
-                r.check("equality.state_energy", abs(e_states[0] - evals[0]) <= etol,
-                        f"returned state energy {e_states[0]} vs exact {evals[0]}")
+            if omega is None:
+                es = np.sort(np.asarray(e_states))
+                r.check("equality.state_energy", len(es) <= len(evals) and np.all(np.abs(es - evals[: len(es)]) <= etol),
+                        f"returned state energies {es.tolist()} vs exact {evals[:len(es)].tolist()}")
         return r
 
     def sample_view(self, case):
